@@ -57,10 +57,10 @@ def known_match(finding, case, failure=None):
     return True
 
 
-def tlc_replay_stage(pid, module, cfg, timeout=900, workers=None, need_cases=True):
+def tlc_replay_stage(pid, module, cfg, timeout=900, workers=None, need_cases=True, env_extra=None):
     """Model-check `module` under `cfg`; replay every REPLAY line it printed into the real code."""
     st = Stage()
-    r = common.run_tlc(pid, module, os.path.join(SPEC, cfg), timeout=timeout, workers=workers)
+    r = common.run_tlc(pid, module, os.path.join(SPEC, cfg), timeout=timeout, workers=workers, env_extra=env_extra)
     st.states = r["distinct"]
     st.transitions = r["generated"]
     st.notes[cfg] = {"tlc_wall_s": round(r["wall"], 1), "distinct": r["distinct"],
@@ -712,7 +712,90 @@ def check_C05(tier, seed):
                                "the harness comparator is trusted"])
 
 
-CHECKS = {"C05": check_C05, "C19": check_C19, "C14": check_C14, "C18": check_C18, "C02": check_C02, "C07": check_C07, "C20": check_C20, "C15": check_C15, "C13": check_C13, "C12": check_C12, "C08": check_C08, "C01": check_C01, "C04": check_C04, "C06": check_C06}
+def check_C16(tier, seed):
+    import subprocess, random
+    t0 = time.time()
+    quick = tier == "quick"
+    r = random.Random(seed)
+    # 1. programs of the other spaces
+    st1, mc = tlc_sessions("C16", "MC_C01.tla", "MC_C01_quick.cfg", timeout=3000, keep=lambda d: not d.get("oom"))
+    base = mc[seed % 25::25 if quick else 3] + gen_sessions(seed + 21, 40 if quick else 600, "C16r")
+    st14, mc14 = tlc_sessions("C16", "MC_C14.tla", "MC_C14_quick.cfg", timeout=3000, keep=lambda d: not d.get("oom"))
+    base += mc14[seed % 60::60 if quick else 6]
+    d = common.outdir("C16")
+    sp = os.path.join(d, "base.sessions.ndjson")
+    with open(sp, "w") as f:
+        for s_ in base:
+            f.write(json.dumps(s_) + "\n")
+    out = subprocess.run([common.BVH, "render", sp], stdout=subprocess.PIPE, text=True, check=True).stdout
+    lines = sorted(set(l for l in out.splitlines() if l.strip()))
+    lp = os.path.join(d, "lines.ndjson")
+    with open(lp, "w") as f:
+        for l in lines:
+            f.write(json.dumps({"x": [ord(c) for c in l]}) + "\n")
+    # 2. the model produces the variants and checks SpellingSound; each variant is replayed
+    st2 = tlc_replay_stage("C16", "MC_C16.tla", "MC_C16.cfg", timeout=6000, env_extra={"LINES": lp})
+    # 3. whole sessions re-typed in variant spellings must run identically (trace validation)
+    var = {}
+    with open(os.path.join(d, "MC_C16.tlcout.cases.ndjson")) as f:
+        for line in f:
+            c = json.loads(line)
+            canon = "".join(map(chr, c["canon"]))
+            text = "".join(map(chr, c["x"]))
+            lists = "".join(map(chr, c["lists"]))
+            if c["kind"] == "alias" and lists != canon:
+                continue          # (optional LET dropped / remark marker changed: listing differs by design)
+            var.setdefault(canon, {})[c["kind"]] = text
+    sess = []
+    for s_ in base:
+        for kind in ("lower", "mixed", "squeeze", "alias", "all"):
+            cmds = []
+            changed = 0
+            for c in s_["cmds"]:
+                c2 = dict(c)
+                if c["k"] in ("line", "direct"):
+                    canon = subprocess_text(c)
+                    t = var.get(canon, {}).get(kind)
+                    if t is not None and t != canon:
+                        c2["text"] = t
+                        changed += 1
+                cmds.append(c2)
+            if changed:
+                d2 = dict(s_)
+                d2["cmds"] = cmds
+                d2["id"] = "%s~%s" % (s_["id"], kind)
+                sess.append(d2)
+    st3 = validate_sessions("C16", "spelled", sess, timeout=6000)
+    return finish("C16", tier, seed, "model_checking", [st1, st14, st2, st3], t0,
+                  rule="the canonical lines of sampled programs (bounded grammar, RENUM forms, seeded random programs) are "
+                       "read by the model scanner (BasicLex); MC_C16 derives five variants per line (lower case, mixed case, "
+                       "optional blanks removed wherever the model still sees the same words, aliases ? ' GO TO GO SUB =< => "
+                       "< > and LET dropped, all combined) and checks SpellingSound on the model; each variant is fed to the "
+                       "real lexer / lister / parser (lists as the model says, parses like the canonical text); every session "
+                       "is then re-typed in each spelling and trace-validated against the same AST-level specification (runs "
+                       "and lists identically); non-trivial = variants whose text differs from the canonical one",
+                  assumptions=ASSUME_SESS)
+
+
+_RENDER_CACHE = {}
+
+
+def subprocess_text(cmd):
+    """canonical text of a command (harness renderer), cached"""
+    import subprocess
+    key = json.dumps(cmd, sort_keys=True)
+    if key not in _RENDER_CACHE:
+        if not _RENDER_CACHE.get("__proc"):
+            _RENDER_CACHE["__proc"] = subprocess.Popen([common.BVH, "render1"], stdin=subprocess.PIPE,
+                                                       stdout=subprocess.PIPE, text=True, bufsize=1)
+        p = _RENDER_CACHE["__proc"]
+        p.stdin.write(json.dumps(cmd) + "\n")
+        p.stdin.flush()
+        _RENDER_CACHE[key] = p.stdout.readline().rstrip("\n")
+    return _RENDER_CACHE[key]
+
+
+CHECKS = {"C16": check_C16, "C05": check_C05, "C19": check_C19, "C14": check_C14, "C18": check_C18, "C02": check_C02, "C07": check_C07, "C20": check_C20, "C15": check_C15, "C13": check_C13, "C12": check_C12, "C08": check_C08, "C01": check_C01, "C04": check_C04, "C06": check_C06}
 for _p in ("C09", "C10", "C11", "C17"):
     CHECKS[_p] = prog_check(_p)
 
